@@ -12,6 +12,7 @@ use std::sync::{Arc, Mutex};
 struct Prog {
     log: Mutex<Vec<String>>,
     delay_seed: u64,
+    slow_ms: u64,
     ctr: std::sync::atomic::AtomicU64,
 }
 impl Prog {
@@ -38,6 +39,10 @@ impl jbk::creator::Progress for Prog {
         self.ev(format!("new:{}:{}", idx, compressed as u8));
     }
     fn handle_cluster(&self, idx: u32, compressed: bool) {
+        // slow compression workers: the producer outruns them and meets the back-pressure limit
+        if compressed && self.slow_ms != 0 {
+            std::thread::sleep(std::time::Duration::from_millis(self.slow_ms));
+        }
         self.ev(format!("handle:{}:{}", idx, compressed as u8));
     }
     fn handle_cluster_written(&self, idx: u32) {
@@ -76,6 +81,7 @@ pub fn run(c: &Case, tmp: &std::path::Path) -> Vec<String> {
     let prog = Arc::new(Prog {
         log: Mutex::new(vec![]),
         delay_seed: c.po("delays").map(|s| s.parse().unwrap()).unwrap_or(0),
+        slow_ms: c.po("slow").map(|s| s.parse().unwrap()).unwrap_or(0),
         ctr: Default::default(),
     });
     let creator = ContentPackCreator::new_with_progress(
